@@ -84,7 +84,7 @@ func (o *c14) End(x *hctx) string {
 		if sl != nil {
 			res := x.r.Do(hist.Step{Op: "close", Slot: i})
 			if res.Hang != nil {
-				failf(x.f, "%s", res.Hang.Detail)
+				checkObs(x.f, res.Hang, "close")
 			}
 			x.mr.Do(hist.Step{Op: "close", Slot: i})
 			if res.Err != nil {
@@ -141,6 +141,7 @@ func TestC14(t *testing.T) {
 		cfg := hist.DrawCfg(t, 50, nil)
 		g := hist.NewGen(t, c14Weights, hist.Universe, 2, cfg.RecordSize).WithSuffixNames(t, cfg)
 		g.Avoid = f33Avoid(cfg, avoidFor("C14"))
+		g.HugeTruncates = cfg.Compression == "" && cfg.Encryption == ""
 		if guard("F-33") && cfg.Compression == "parallelbzip2" && cfg.Encryption == "pgp" {
 			g.MaxSize = 90000
 		}
